@@ -44,10 +44,15 @@ type c13case struct {
 	k          int    // truncation position for trunc
 	cred       int
 	dial       bool
+	nort       bool // Options.ReadTimeout = NoTimeout: only the handshake time-out bounds the wait
 }
 
 func (k c13case) id() string {
-	return fmt.Sprintf("c=%d/s=%d/%s@%d/cred=%d/dial=%v", k.crev, k.srev, k.resp, k.k, k.cred, k.dial)
+	s := fmt.Sprintf("c=%d/s=%d/%s@%d/cred=%d/dial=%v", k.crev, k.srev, k.resp, k.k, k.cred, k.dial)
+	if k.nort {
+		s += "/no-read-timeout"
+	}
+	return s
 }
 
 var creds = []struct{ db, user, pass, quota string }{
@@ -63,6 +68,9 @@ func body13(k c13case) Body {
 	return func() Outcome {
 		cr := creds[k.cred]
 		opt := ch.Options{ProtocolVersion: k.crev, Database: cr.db, User: cr.user, Password: cr.pass, QuotaKey: cr.quota, HandshakeTimeout: c13HandshakeTimeout}
+		if k.nort {
+			opt.ReadTimeout = ch.NoTimeout
+		}
 		hello := baseHello
 		hello.Revision = k.srev
 		neg := min(k.crev, k.srev)
@@ -106,6 +114,12 @@ func body13(k c13case) Body {
 				case "trunc":
 					c.Deliver(hb[:k.k])
 					c.CutRead()
+				case "trunc-stall":
+					// a hello that stops in the middle while the connection stays up
+					c.Deliver(hb[:k.k])
+				case "exception-stall":
+					eb := Wire{Rev: neg}.Exception(refwire.Exception{Code: 516, Name: "DB::Exception", Message: "DB::Exception: default: Authentication failed", Stack: ""})
+					c.Deliver(eb[:len(eb)/2])
 				case "silence":
 				}
 			})
@@ -221,7 +235,7 @@ func body13(k c13case) Body {
 
 // C13 — handshake negotiates min(client, server) revision and fails cleanly.
 func C13(c *vk.Ctx) {
-	c.Rule("client revision x server revision over the threshold-neighbour revision set (every interval between consecutive feature revisions plus both neighbours of each threshold; client <= 54460, server <= 54480) with a well-formed hello; {hello delayed by read timeout + 1 s, by 2.5 and 4.2 read timeouts, until half a read timeout and until 10 ms before the handshake timeout, exception, exception followed at once by the close (end of stream reported together with its last bytes), Pong, Data, garbage, immediate cut, silence until the handshake timeout, hello truncated at every byte} x a diagonal of revision pairs; 4 credential / database / quota-key string sets; through Connect and through Dial with a simulated dialer. The reference peer writes its hello with the fields defined at min(client, server). After a successful handshake a query is executed and its packets are parsed / rendered by the reference model at min(client, server). distinct_nontrivial = cases.")
+	c.Rule("client revision x server revision over the threshold-neighbour revision set (every interval between consecutive feature revisions plus both neighbours of each threshold; client <= 54460, server <= 54480) with a well-formed hello; {hello delayed by read timeout + 1 s, by 2.5 and 4.2 read timeouts, until half a read timeout and until 10 ms before the handshake timeout, exception, exception followed at once by the close (end of stream reported together with its last bytes), Pong, Data, garbage, immediate cut, silence until the handshake timeout, hello truncated at every byte, a hello or an exception that stops in the middle while the connection stays up (with the default read time-out and with none)} x a diagonal of revision pairs; 4 credential / database / quota-key string sets; through Connect and through Dial with a simulated dialer. The reference peer writes its hello with the fields defined at min(client, server). After a successful handshake a query is executed and its packets are parsed / rendered by the reference model at min(client, server). distinct_nontrivial = cases.")
 	crevs := refwire.RevSet(50000, 54460)
 	srevs := refwire.RevSet(50000, 54480)
 	run := func(k c13case, group string) {
@@ -278,6 +292,15 @@ func C13(c *vk.Ctx) {
 			hb := ServerHello(func() refwire.ServerHello { h := baseHello; h.Revision = p.s; return h }(), p.c)
 			for k := 0; k < len(hb); k++ {
 				run(c13case{crev: p.c, srev: p.s, resp: "trunc", k: k, dial: dial}, "truncated hello")
+			}
+			// a peer that stops in mid-answer without closing, with and without a read time-out:
+			// the handshake time-out has to end the wait
+			for _, nort := range []bool{false, true} {
+				for _, k := range []int{1, 2, len(hb) / 2, len(hb) - 1} {
+					run(c13case{crev: p.c, srev: p.s, resp: "trunc-stall", k: k, dial: dial, nort: nort}, "stalled answer")
+				}
+				run(c13case{crev: p.c, srev: p.s, resp: "exception-stall", dial: dial, nort: nort}, "stalled answer")
+				run(c13case{crev: p.c, srev: p.s, resp: "silence", dial: dial, nort: nort}, "stalled answer")
 			}
 		}
 	}
